@@ -72,7 +72,7 @@ func init() {
 				opt = res.GetCosmeticOption()
 			case "engine":
 				s, serr := filterlist.NewRuleStorage([]filterlist.RuleList{
-					&filterlist.StringRuleList{ID: 1, RulesText: text + "\n##.g\nexample.org##.s\n"},
+					&filterlist.StringRuleList{ID: 1, RulesText: text + "\n##.g\nexample.org##.s\n~shop.example.net##.gx\nexample.*##.w\n~example.net,~example.com##.gy\n"},
 				})
 				must(serr)
 				e := urlfilter.NewEngine(s)
@@ -95,6 +95,19 @@ func init() {
 					gen := css && o&rules.CosmeticOptionGenericCSS != 0
 					if has(cr.ElementHiding.Generic, ".g") != gen || has(cr.ElementHiding.Specific, ".s") != css {
 						return fmt.Sprint(uint32(opt)) + fmt.Sprintf("!COSMETIC-RESULT-IGNORES-OPTION:%d", uint32(o)), mi, rule.Whitelist
+					}
+					// every generic rule (no permitted domain: exclusions do not make a rule specific) is switched off with
+					// generic CSS, wherever the engine files it; every domain-restricted rule follows CSS
+					both := append(append([]string{}, cr.ElementHiding.Generic...), cr.ElementHiding.Specific...)
+					for _, x := range []string{".g", ".gx", ".gy"} {
+						if has(both, x) != gen {
+							return fmt.Sprint(uint32(opt)) + fmt.Sprintf("!GENERIC-RULE-IGNORES-OPTION:%d:%s", uint32(o), x), mi, rule.Whitelist
+						}
+					}
+					for _, x := range []string{".s", ".w"} {
+						if has(both, x) != css {
+							return fmt.Sprint(uint32(opt)) + fmt.Sprintf("!SPECIFIC-RULE-IGNORES-OPTION:%d:%s", uint32(o), x), mi, rule.Whitelist
+						}
 					}
 				}
 			}
